@@ -145,11 +145,13 @@ def fast_black(on):
     _FAST["on"] = on
 
 
-def run_cli_process(argv, cwd):
+def run_cli_process(argv, cwd, hashseed=None):
     """The CLI as users run it: a fresh `python -m xstate_statemachine.cli` in `cwd` (tools the CLI
     calls - isort, black - see that working directory and whatever is on disk in it)."""
     import subprocess
     env = dict(os.environ, PYTHONPATH=observe.REPO_SRC, PYTHONDONTWRITEBYTECODE="1")
+    if hashseed is not None:
+        env["PYTHONHASHSEED"] = str(hashseed)      # every process of a user has its own string hashes
     try:
         r = subprocess.run([sys.executable, "-m", "xstate_statemachine.cli"] + argv, cwd=cwd, env=env,
                            capture_output=True, text=True, timeout=300)
@@ -158,10 +160,10 @@ def run_cli_process(argv, cwd):
     return r.returncode, (r.stdout + r.stderr)[-2000:], []
 
 
-def run_cli(argv, cwd, allow, process=False):
+def run_cli(argv, cwd, allow, process=False, hashseed=None):
     """-> (exit code or 'crash:<Exc>', output text, audit events)"""
     if process:
-        return run_cli_process(argv, cwd)
+        return run_cli_process(argv, cwd, hashseed)
     from xstate_statemachine.cli.__main__ import main
     old_argv, old_cwd = sys.argv, os.getcwd()
     buf = io.StringIO()
@@ -451,6 +453,19 @@ HOSTILE = ['say "hi"', "it's", 'tri"""ple', "back\\slash", "new\nline", "tab\the
            "lambda: 0", "print", "self", "logger", "State", "build", "enterGreen", "enter_green", "enter__green",
            # line separators other than \n that str.splitlines() honours
            "nel\x85x", "ls\u2028x", "ps\u2029x", "ff\x0cx", "vt\x0bx", "fs\x1cx", "import os\u2028import sys"]
+# payloads shaped for the places a name is echoed as prose: docstrings (either quote, the statement at
+# module, function or method depth) and comments
+_PAY = "open('CANARY_EXEC','w')"        # no '.', so it survives where ids are de-dotted
+_DQ, _SQ = '"' * 3, "'" * 3
+HOSTILE_PROSE = (["d%s; %s; %s" % (q, _PAY, q) for q in (_DQ, _SQ)]
+                 + ["c\n" + _PAY, "c\r" + _PAY, "c\n" + _PAY + " #", 'q"\n' + _PAY + '\n"']
+                 + ["d%s\n%s%s\n%s%s" % (q, " " * k, _PAY, " " * k, q) for q in (_DQ, _SQ) for k in (0, 4, 8)]
+                 + ["c\n%s%s" % (" " * k, _PAY) for k in (4, 8)]
+                 # a line of its own for tools that split at every Unicode line boundary
+                 + ["x%simport logging; %s%sy" % (sep, _PAY, sep)
+                    for sep in ("\u2028", "\u2029", "\x85", "\x0c", "\x0b", "\x1c", "\x1d", "\x1e", "\n", "\r")]
+                 + ["x%sfrom typing import Any; %s%sy" % (sep, _PAY, sep) for sep in ("\u2028", "\x85")])
+HOSTILE += HOSTILE_PROSE
 
 
 def hostile_config(rng):
@@ -479,6 +494,50 @@ def hostile_config(rng):
                    "after": {"100000": a, hs().replace(".", "_"): {"target": c}},
                    "on": {"BACK": a}},
                c: {"type": "final"}}}
+    return cfg
+
+
+EVENT_POOL = ["INCREMENT", "DECREMENT", "RESET", "DOUBLE", "HALVE", "NEGATE", "SQUARE", "CLAMP", "tick", "poke",
+              "user.click", "user.key", "sync", "flush"]
+
+
+def counter_config(rng):
+    """Machines a demo run cannot walk: the initial state handles its events without leaving."""
+    evs = rng.sample(EVENT_POOL, rng.randint(2, 9))
+    on = {e: {"actions": ["on%s" % "".join(w.capitalize() for w in re.split(r"[._]", e.lower()))]} for e in evs}
+    if rng.random() < 0.3:
+        on[evs[0]]["guard"] = "isOk"
+    shape = rng.choice(["flat", "flat", "nested", "parallel"])
+    if shape == "flat":
+        states = {"active": {"on": on}}
+        if rng.random() < 0.4:
+            states["idle"] = {"on": {evs[0]: "active"}}      # declared, never reached
+        return {"id": "counter", "initial": "active", "context": {"count": 0}, "states": states}
+    if shape == "nested":
+        return {"id": "counter", "initial": "outer", "context": {"count": 0},
+                "states": {"outer": {"initial": "inner", "states": {"inner": {"on": on}}}}}
+    half = len(evs) // 2
+    return {"id": "counter", "type": "parallel", "context": {"count": 0},
+            "states": {"ra": {"initial": "x", "states": {"x": {"on": {e: on[e] for e in evs[:half]}}}},
+                       "rb": {"initial": "y", "states": {"y": {"on": {e: on[e] for e in evs[half:]}}}}}}
+
+
+def hostile_id_config(spec, idx, rng, ordinal=None):
+    """An ordinary machine (names discovery can bind) whose ID alone is hostile."""
+    for k in range(20):
+        cfg = gen_config(spec, idx + 1000 * k)
+        if "maxIterations" not in cfg:
+            break
+    cfg = copy.deepcopy(cfg)
+    if ordinal is not None and ordinal < len(HOSTILE_PROSE):
+        raw = HOSTILE_PROSE[ordinal]                # every prose-shaped payload is used at least once,
+        # on a machine every template can write
+        cfg = {"id": "m", "initial": "idle", "context": {"n": 0},
+               "states": {"idle": {"on": {"GO": {"target": "busy", "actions": ["startWork"]}}},
+                          "busy": {"entry": ["logEntry"], "on": {"BACK": {"target": "idle", "guard": "isDone"}}}}}
+    else:
+        raw = rng.choice(HOSTILE_PROSE if rng.random() < 0.7 else HOSTILE)
+    cfg["id"] = (raw.replace(".", "_").lstrip("#")) or "m"
     return cfg
 
 
@@ -577,7 +636,38 @@ def diff_kind(d):
     return "/".join(keep[-3:]) or "structure"
 
 
-def judge(res, cfg, template, am, fc, family, case_ref, real_black=False):
+def smuggled(src):
+    """The hostile strings' payload calls, found as CODE (Call nodes) in a generated file."""
+    for node in ast.walk(ast.parse(src)):
+        if not isinstance(node, ast.Call):
+            continue
+        fn = node.func
+        name = fn.id if isinstance(fn, ast.Name) else (fn.attr if isinstance(fn, ast.Attribute) else None)
+        if name not in ("open", "__import__", "system"):
+            continue
+        for a in node.args:
+            if isinstance(a, ast.Constant) and isinstance(a.value, str) and (
+                    "CANARY_EXEC" in a.value or a.value == "os"):
+                return "%s(%r) at line %d" % (name, a.value, node.lineno)
+    return None
+
+
+def run_runner(out, files, cwd):
+    """Runs the generated runner the way its user does; -> 'ran' | 'timeout' | None (no runner)."""
+    import subprocess
+    runner = next((f for f in files if f.endswith("_runner.py")), None) or (files[0] if len(files) == 1 else None)
+    if runner is None:
+        return None
+    env = dict(os.environ, PYTHONPATH=observe.REPO_SRC + os.pathsep + out, PYTHONDONTWRITEBYTECODE="1")
+    try:
+        subprocess.run([sys.executable, os.path.join(out, runner)], cwd=cwd, env=env, capture_output=True,
+                       text=True, timeout=60)
+    except subprocess.TimeoutExpired:
+        return "timeout"
+    return "ran"
+
+
+def judge(res, cfg, template, am, fc, family, case_ref, real_black=False, force_process=False):
     tmp = tempfile.mkdtemp(prefix="xsv17_")
     witness = {"family": family, "template": template, "async": am, "files": fc, "config": cfg}
     key_t = template
@@ -591,8 +681,11 @@ def judge(res, cfg, template, am, fc, family, case_ref, real_black=False):
             FULL_PROCESS_RUNS or res.counters.get("cli.runs.output-in-working-directory", 0) < 2)
         argv = ["generate-template", "m.json", "-t", template] + ([] if in_cwd else ["-o", "out"]) + [
             "-fc", str(fc), "-am", am, "-f", "--sleep", "no"]
-        code, text, ev = run_cli(argv, tmp, tmp, process=in_cwd)
+        proc = in_cwd or force_process
+        code, text, ev = run_cli(argv, tmp, tmp, process=proc, hashseed=1)
         res.evaluations += 1
+        if proc:
+            res.count("cli.runs.own-process")
         res.count("cli.runs." + template)
         if in_cwd:
             res.count("cli.runs.output-in-working-directory")
@@ -631,6 +724,14 @@ def judge(res, cfg, template, am, fc, family, case_ref, real_black=False):
                 res.violation("C17:generated-file-is-not-valid-python/%s" % key_t, "%s: %s" % (f, e),
                               witness, case=case_ref)
                 return
+        for f in files:
+            sm = smuggled(srcs[f])
+            if sm:
+                res.violation("C17:input-string-is-code-in-generated-file/%s" % key_t,
+                              "%s: a call carried by a JSON string is an AST node of the generated file (%s)" % (
+                                  f, sm), witness, case=case_ref)
+                return
+        res.count("static.files-scanned-for-smuggled-code", len(files))
         # import + build under the monitor
         with armed(allow=None) as events:
             try:
@@ -682,9 +783,21 @@ def judge(res, cfg, template, am, fc, family, case_ref, real_black=False):
                               dict(witness, events=seq), case=case_ref)
                 return
         # regeneration is byte-identical, --check sees no drift (every third written output)
-        if not (real_black or in_cwd or res.counters.get("compared.fingerprints", 0) % 3 == 1):
+        if family in ("hostile", "hostile-id") and res.counters.get("runner.executed", 0) < (40 if FULL_PROCESS_RUNS else 3):
+            # the runner is generated code too: run it as its user would, in a scratch directory
+            r = run_runner(out, files, tmp)
+            if r == "ran":
+                res.count("runner.executed")
+                if any(os.path.exists(os.path.join(d_, "CANARY_EXEC")) for d_ in (tmp, out)):
+                    res.violation("C17:input-string-executed-as-code/runner", "running the generated runner "
+                                  "executed a string from the JSON", witness, case=case_ref)
+                    return
+            elif r == "timeout":
+                res.count("runner.timeout-inconclusive")
+        if not (real_black or proc or res.counters.get("compared.fingerprints", 0) % 3 == 1):
             return
-        code2, text2, _ = run_cli(argv, tmp, tmp, process=in_cwd)
+        # (a fresh process has fresh string hashes: the bytes may not depend on them)
+        code2, text2, _ = run_cli(argv, tmp, tmp, process=proc, hashseed=2)
         again = {}
         for f in files:
             p = os.path.join(out, f)
@@ -693,11 +806,11 @@ def judge(res, cfg, template, am, fc, family, case_ref, real_black=False):
                     again[f] = fh.read()
         res.count("regenerated")
         if code2 != 0 or again != srcs:
-            res.violation("C17:regeneration-not-byte-identical/%s" % key_t,
+            res.violation("C17:regeneration-not-byte-identical/%s%s" % (key_t, "/fresh-process" if proc else ""),
                           "second run: exit %s, files differing: %s" % (
                               code2, [f for f in files if again.get(f) != srcs[f]]), witness, case=case_ref)
             return
-        code3, text3, _ = run_cli(argv + ["--check"], tmp, tmp, process=in_cwd)
+        code3, text3, _ = run_cli(argv + ["--check"], tmp, tmp, process=proc, hashseed=3)
         res.count("check-mode-runs")
         if code3 != 0:
             res.violation("C17:check-reports-drift-on-fresh-output/%s" % key_t, text3[-200:], witness, case=case_ref)
@@ -742,6 +855,10 @@ def run_chunk(spec):
     for j in range(n_host):
         idx = ci * 100000 + 50000 + j
         jobs.append(("hostile", idx, None))
+    for j in range(2 if tier == "quick" else 30):
+        jobs.append(("hostile-id", ci * 100000 + 60000 + j, None))
+    for j in range(1 if tier == "quick" else 16):
+        jobs.append(("counter", ci * 100000 + 70000 + j, None))
     stately = sorted(os.listdir(STATELY)) if os.path.isdir(STATELY) else []
     mine = [f for i, f in enumerate(stately) if i % NCHUNKS == ci]
     if tier == "quick":
@@ -756,6 +873,13 @@ def run_chunk(spec):
             cfg = gen_config(spec, idx)
         elif family == "hostile":
             cfg = hostile_config(rng_for(spec["seed"], ID, ci, idx, "host"))
+        elif family == "hostile-id":
+            nper = 2 if tier == "quick" else 30
+            j_ = idx - (ci * 100000 + 60000)
+            cfg = hostile_id_config(spec, idx, rng_for(spec["seed"], ID, ci, idx, "hostid"),
+                                    ordinal=(j_ * NCHUNKS + ci) if tier == "quick" else (j_ + 2 * ci))
+        elif family == "counter":
+            cfg = counter_config(rng_for(spec["seed"], ID, ci, idx, "counter"))
         else:
             try:
                 with open(os.path.join(STATELY, fname), encoding="utf-8") as fh:
@@ -774,11 +898,14 @@ def run_chunk(spec):
                     seen.add(c[0])
                     pick.append(c)
             combos = pick if tier == "quick" else pick + combos[:3]
+            if family == "counter" and tier == "quick":
+                combos = combos[:2]
         for (t, am, fc) in combos:
             k += 1
             wd.arm("%s idx=%s %s" % (family, idx, t))
             judge(res, cfg, t, am, fc, family, {"idx": idx, "family": family, "file": fname},
-                  real_black=(k % 12 == 0))
+                  real_black=(k % 12 == 0), force_process=(family == "counter"))
+            res.count("family." + family)
     wd.disarm()
     return res.to_json()
 
@@ -786,7 +913,9 @@ def run_chunk(spec):
 def quota(counters, tier):
     out = []
     need = ["compared.fingerprints", "compared.traces", "regenerated", "check-mode-runs", "cli.refused",
-            "stately.exports", "formatter-stand-in-checked", "cli.runs.output-in-working-directory"]
+            "stately.exports", "formatter-stand-in-checked", "cli.runs.output-in-working-directory",
+            "cli.runs.own-process", "family.counter", "family.hostile-id", "runner.executed",
+            "static.files-scanned-for-smuggled-code"]
     need += ["cli.wrote." + t for t in TEMPLATES]
     need += ["loaded." + t for t in TEMPLATES]
     for k in need:
